@@ -4,14 +4,15 @@ import Std.Data.HashMap
 /-! Line-protocol driver for the C05 model (`lake build c05drv`).
 
 Requests (one per line; `F` is a fault: `-` none, `f<k>` fail the k-th commit of the call,
-`c<k>` crash after the k-th commit of the call):
+`c<k>` crash after the k-th commit of the call, `i` the lazy initialisation's write fails, `ci` crash
+after that write):
 
-* `cfg <W> <abc>`                            new empty node with window size W; a,b,c ∈ {0,1}: which
+* `cfg <W> <abc>`                            new empty node with window size W; a,b,c,d ∈ {0,1}: which
                                              repairs (`Fixes`) the code under test contains
-* `blk <num> <hash> <parent> <root> <oldroot> <bits> <txs>`   append a block to the base chain
+* `blk <num> <hash> <parent> <root> <oldroot> <applied> <bits> <txs>`   append a block to the base chain
 * `base <s|->`                               node := canonical image of the base chain (graceful
                                              shutdown snapshot at next = s, or none), lazy memory
-* `store <num> <hash> <parent> <root> <oldroot> <bits> <txs> F`
+* `store <num> <hash> <parent> <root> <oldroot> <applied> <bits> <txs> F`
 * `revert F` | `l1head <v> F` | `snap F` | `restart F` | `kill` | `prune <end> F`
 * `basecheck`  compares the closed-form base image with the fold of the model's own store writes
 * `touchp` | `initp` | `initpbits`   the same for a pruning node (`pruner.InitializeRunningEventFilter`)
@@ -50,6 +51,8 @@ def parseList? (s : String) : Option (List Nat) :=
 
 def parseFault? (s : String) : Option Fault :=
   if s == "-" then some .none
+  else if s == "i" then some .failInit
+  else if s == "ci" then some .crashInit
   else match s.toList with
     | 'f' :: r => (String.ofList r).toNat?.map Fault.failAt
     | 'c' :: r => (String.ofList r).toNat?.map Fault.crashAfter
@@ -57,11 +60,11 @@ def parseFault? (s : String) : Option Fault :=
 
 def parseBlock? (a : List String) : Option Block :=
   match a with
-  | [n, h, p, r, o, bits, txs] => do
+  | [n, h, p, r, o, a, bits, txs] => do
     let n ← parseNat? n; let h ← parseNat? h; let p ← parseNat? p
-    let r ← parseNat? r; let o ← parseNat? o
+    let r ← parseNat? r; let o ← parseNat? o; let a ← parseNat? a
     let bits ← parseList? bits; let txs ← parseList? txs
-    pure ⟨n, h, p, r, o, bits, txs⟩
+    pure ⟨n, h, p, r, o, a, bits, txs⟩
   | _ => none
 
 def errStr : Err → String
@@ -165,10 +168,11 @@ def step (s : DState) (line : String) : DState × String :=
   | ["cfg", w, fxs] =>
     let flag (c : Char) : Option Bool := if c == '1' then some true else if c == '0' then some false else none
     match parseNat? w, fxs.toList with
-    | some w, [a, b, c] =>
-      match flag a, flag b, flag c with
-      | some a, some b, some c => if w = 0 then (s, "bad-op") else (⟨w, ⟨a, b, c⟩, Node.init, [], none, none⟩, "ok")
-      | _, _, _ => (s, "bad-op")
+    | some w, [a, b, c, e] =>
+      match flag a, flag b, flag c, flag e with
+      | some a, some b, some c, some e =>
+        if w = 0 then (s, "bad-op") else (⟨w, ⟨a, b, c, e⟩, Node.init, [], none, none⟩, "ok")
+      | _, _, _, _ => (s, "bad-op")
     | _, _ => (s, "bad-op")
   | "blk" :: rest =>
     match parseBlock? rest with
